@@ -9,7 +9,7 @@ from collections import Counter
 
 import numpy as np
 
-from sim.kernel import HarnessError, ReplayDiverged
+from sim.kernel import HarnessError, StopRun, ReplayDiverged
 from sim.rngseam import RngSeam, RANDINT_FAULTS, SHUFFLE_FAULTS
 from sim.spies import Spies
 from sim import gen
@@ -953,6 +953,31 @@ def oracle(ctx, plan, obs):
                                   f'{routine}: variances {v2.tolist()} are not the sample covariance over the {len(per_mean)} '
                                   f'usable resamples of the per-resample means (model block {blk.tolist()})')
             ctx.probe('variances_checked')
+    elif routine == 'bootstrap_crossval' and res.variances is not None:
+        # the documented correction: the variance of a mean over n repetitions is modelled as a + b / n; from the two
+        # observed points (single repetitions: a + b, mean of n_cv repetitions: a + b / n_cv) the limit a for infinitely
+        # many repetitions is (n_cv * var_mean - var_1) / (n_cv - 1), computed from the stored evaluations and ceilings
+        try:
+            ev = np.asarray(res.evaluations, dtype=float)
+            nc_ = np.asarray(res.noise_ceiling, dtype=float)
+            okr = ~np.isnan(ev[:, 0, 0, 0])
+            n_cv = ev.shape[-1]
+            if okr.sum() >= 2 and nc_.shape == (2, ev.shape[0], n_cv):
+                ev_mean = ev[okr].mean(axis=(-1, -2))                   # (N_ok, nm)
+                ev_1 = ev[okr].mean(axis=-2)                            # (N_ok, nm, n_cv)
+                nc_mean = nc_[:, okr].mean(axis=-1)                     # (2, N_ok)
+                var_mean = np.cov(np.concatenate([ev_mean.T, nc_mean]))
+                var_1 = np.mean([np.cov(np.concatenate([ev_1[:, :, i].T, nc_[:, okr, i]])) for i in range(n_cv)], axis=0)
+                expv = (n_cv * var_mean - var_1) / (n_cv - 1)
+                if np.asarray(res.variances).shape == expv.shape and not _close(np.asarray(res.variances), expv, 1e-7):
+                    ctx.violation('eval_ref.clause5', f'{routine}:variances:corrected',
+                                  f'{routine} (use_correction, n_cv={n_cv}): variances are not (n_cv * cov of per-resample means - mean cov '
+                                  f'of single repetitions) / (n_cv - 1); e.g. [0,0] {np.asarray(res.variances)[0, 0]!r} vs {expv[0, 0]!r}')
+                ctx.probe('corrected_variances_checked')
+        except StopRun:
+            raise
+        except Exception:
+            ctx.probe('corrected_variances_reference_failed')
     ctx.probe('unusable_resamples', n_un)
 
 
